@@ -65,6 +65,21 @@ SameExceptLock(a, b) == \A l \in 0..254 : l # 2 => a[l + 1] = b[l + 1]
 DocumentedWriteExc == {"MemoryLocationNotWriteable", "MemoryWriteFailure", "ResponseError", "MemoryValueNotWriteable",
                        "MemoryLocationNotImplemented"}
 
+\* what a value-level write stores: the bytes given, or -- for a literal -- the pattern of the value's kind: MASK is the
+\* largest number of the width (all ones; 0x7f..ff for a signed quantity), TMASK the one below it; a number goes MSB
+\* first, negative ones in two's complement (widths <= 3 here: TLC integers are 32 bit); <<>> = not representable
+Pow256(w) == IF w = 1 THEN 256 ELSE IF w = 2 THEN 65536 ELSE 16777216
+NumBytesW(v, w) == [j \in 1..w |-> (v \div (IF w - j = 0 THEN 1 ELSE IF w - j = 1 THEN 256 ELSE 65536)) % 256]
+WD(r) == LET w == Len(r.locs) IN
+         IF r.lit = "" THEN r.wdata
+         ELSE IF r.lit = "MASK" THEN [j \in 1..w |-> IF j = 1 /\ r.signed = 1 THEN 127 ELSE 255]
+         ELSE IF r.lit = "TMASK" THEN [j \in 1..w |-> IF j = w THEN (IF w = 1 /\ r.signed = 1 THEN 126 ELSE 254)
+                                                      ELSE IF j = 1 /\ r.signed = 1 THEN 127 ELSE 255]
+         ELSE IF r.signed = 1 THEN
+              (IF r.num >= Pow256(w) \div 2 \/ r.num < 0 - Pow256(w) \div 2 THEN <<>>
+               ELSE NumBytesW(IF r.num < 0 THEN Pow256(w) + r.num ELSE r.num, w))
+         ELSE (IF r.num < 0 \/ r.num >= Pow256(w) THEN <<>> ELSE NumBytesW(r.num, w))
+
 Verdict(r) ==
     LET fr == Fold(r)
         u0 == InitUnit(r.unit)
@@ -118,15 +133,18 @@ Verdict(r) ==
               ELSE IF ~SameExceptLock(fin, FinalExpected(r)) THEN Fail("memory-changed", 0)
               ELSE IF Props(bank).latch /\ fin[3] = 170 THEN Fail("left-latched", 0)
               ELSE Pass
+      [] r.seq = "write" /\ r.locs # <<>> /\ r.lit # "" /\ WD(r) = <<>> ->
+           \* a number that does not fit the value: refused before anything is sent
+           IF r.out.exc # "none" /\ Len(r.ev) = 0 THEN Pass ELSE Fail("unrepresentable-number-not-refused", Len(r.ev))
       [] r.seq = "write" /\ r.locs # <<>> ->
            \* a value declared by the user of the library: its locations in the order given (they need not be contiguous or
            \* ascending); access types are those the bank's map gives these locations
-           LET n == Len(r.wdata)
+           LET n == Len(WD(r))
                typ(j) == TypeOfLoc(r.unit.bank, r.locs[j])
                writable == \A j \in 1..Len(r.locs) : Writable(typ(j))
                lockable == \E j \in 1..Len(r.locs) : Lockable(typ(j))
                mine == {r.locs[j] : j \in 1..n}
-               stored == /\ \A j \in 1..n : fin[r.locs[j] + 1] = r.wdata[j]
+               stored == /\ \A j \in 1..n : fin[r.locs[j] + 1] = WD(r)[j]
                          /\ \A l \in 0..254 : (l # 2 /\ l \notin mine) => fin[l + 1] = r.unit.mem[l + 1]
                \* a DTR0 that did not advance is harmless when the next location is set explicitly anyway: it must be
                \* reported only if the data did not arrive (clause above); it may be reported (last step)
